@@ -585,4 +585,15 @@ theorem divide_flow_rule (dk : KVs) (m : Tree) :
 example : daughterFlow [("key", .str "m0"), ("processes", .dict [])]
     (.node { flow := .dict [("S1", .list [])] } []) = .dict [] := by
   simp [daughterFlow, KV.has, KV.lookup]
+/-- **`split_dict` in this model** (used by the histories of C09 as a divider whose two shares differ): the two
+shares partition the items of the mother's dictionary — the first half of the items goes to the second
+daughter, the rest to the first; nothing is lost or handed out twice. -/
+theorem split_dict_shares_partition (kvs : KVs) :
+    ∃ a b, applyDivider "split_dict" (.dict kvs) = .ok (some (.dict a, .dict b)) ∧ b ++ a = kvs := by
+  refine ⟨kvs.drop (kvs.length / 2), kvs.take (kvs.length / 2), ?_, List.take_append_drop _ _⟩
+  simp [applyDivider]
+
+example : applyDivider "split_dict" (.dict [("a", .int 1), ("b", .int 2), ("c", .int 3)]) =
+    .ok (some (.dict [("b", .int 2), ("c", .int 3)], .dict [("a", .int 1)])) := by
+  simp [applyDivider]
 end VivProps.C09
